@@ -56,6 +56,8 @@ class Recorder:
             out = real_rand(*shape)
             fr = sys._getframe(1)
             if fr.f_code.co_name == "run" and fr.f_code.co_filename.endswith("mutate.py"):
+                # after 959029e a batch without a finite draw is drawn again: the LAST block is the one that is stored
+                rec["blocks"] = rec.get("blocks", 0) + 1
                 rec["draw"] = out.copy()
             elif fr.f_code.co_name == "run" and fr.f_code.co_filename.endswith("mcmc.py"):
                 rec["steps"][-1]["r"] = out.copy()
@@ -149,7 +151,9 @@ class Recorder:
             L = [float(self.like_user(x)) for x in X]       # pure likelihood: same values the sampler saw
             picks = rec["choice"][0] if rec["choice"] else []
             ls = ",".join("x" if not np.isfinite(v) else f2hex(v) for v in L)
-            self.tapes.append(f"D/{','.join(map(str, tags))}/{ls}/{','.join(map(str, picks)) if picks else '-'}")
+            disc = (rec.get("blocks", 1) - 1) * self.n
+            self.tapes.append(f"D/{','.join(map(str, tags))}/{ls}/{','.join(map(str, picks)) if picks else '-'}"
+                              + (f"/{disc}" if disc else ""))
             masks = []
         else:
             steps_s = []
